@@ -18,7 +18,7 @@ package engine
 // getGengine (C17): waits (never fails) until a list is non-empty, removes one wrapper from it and hands it
 // to the caller, who then owns it (ghost inlist == 0: it is in no list, so nobody else can obtain it).
 //@ func (*GenginePool).getGengine
-//@   props C17 C19 C09
+//@   props C17 C19 C09 C06
 //@   entry nolocks
 //@   requires gp != nil
 //@   oncall (*sync.Mutex).Unlock
@@ -31,7 +31,7 @@ package engine
 
 // putGengineLocked (C17): the caller hands back a wrapper it owns; a goroutine appends it to its list under the list lock
 //@ func (*GenginePool).putGengineLocked$1
-//@   props C17 C19 C09
+//@   props C17 C19 C09 C06
 //@   task
 //@   entry nolocks
 //@   requires gp != nil && wrapperOK(gp, gw) && gget(inlist, gw) == 0
@@ -42,7 +42,7 @@ package engine
 //@   nopanic
 
 //@ func (*GenginePool).putGengineLocked
-//@   props C17 C19 C09
+//@   props C17 C19 C09 C06
 //@   requires gp != nil && wrapperOK(gp, gw) && gget(inlist, gw) == 0
 //@   ensures [C17] returned: gget(inlist, gw) == 1
 //@   modifies GenginePool.freeGengines, GenginePool.additionGengines, gset(inlist, gw), elemsof(*gengineWrapper)
@@ -531,7 +531,7 @@ package engine
 // updateIncremental merges the parsed rules into the builder's rule set WITHOUT writing the published container (C07-A):
 // the result is a fresh container holding old (+) parsed
 //@ func updateIncremental
-//@   props C07 C08 C16 C04 C05 C14
+//@   props C07 C08 C16 C04 C05 C14 C12 C13
 //@   arith int unchecked
 //@   requires kc != nil && rb != nil && wfParsed(kc) && wfKc(rb.Kc)
 //@   ghost OLD = rb.Kc
@@ -539,7 +539,7 @@ package engine
 //@   oncall tool.BinarySearch
 //@     after A0 := arr(arg0)
 //@   ensures [C07] freshcontainer: fresh(rb.Kc)
-//@   ensures [C08,C04,C16,C05,C14] merged: wfKc(rb.Kc)
+//@   ensures [C08,C04,C16,C05,C14,C12,C13] merged: wfKc(rb.Kc)
 //@   ensures [C08] view: (forall k: string :: (k in rb.Kc.RuleEntities) <==> ((k in OLD.RuleEntities) || (k in kc.RuleEntities))) && (forall k: string :: (k in kc.RuleEntities) ==> rb.Kc.RuleEntities[k] == kc.RuleEntities[k]) && (forall k: string :: (k in OLD.RuleEntities) && !(k in kc.RuleEntities) ==> rb.Kc.RuleEntities[k] == OLD.RuleEntities[k])
 //@   modifies rb.Kc
 //@   panicsafe
